@@ -94,6 +94,61 @@ Section Search.
     end.
 End Search.
 
+(* ---------------------------------------------------------------------------------------------------------
+   The repaired search (commit 6667c22, surface_factory.py lines 231-250):
+
+     def closes(ends):
+         return all(allclose(ends[k][1], ends[(k+1) % 4][0]) for k in range(4))
+     if not closes([(c[0], c[-1]) for c in mycurves]):
+         arrangement = None
+         for perm in permutations(range(1, 4)):                 # (1,2,3) (1,3,2) (2,1,3) (2,3,1) (3,1,2) (3,2,1)
+             for flips in product((False, True), repeat=3):      # FFF FFT FTF FTT TFF TFT TTF TTT
+                 ends = [(c0[0], c0[-1])] + [(ci[-1], ci[0]) if f else (ci[0], ci[-1]) for i, f in zip(perm, flips)]
+                 if closes(ends): arrangement = (perm, flips); break
+             if arrangement is not None: break
+         if arrangement is None: raise RuntimeError('Curves do not form a closed loop (end-points do not match)')
+         mycurves = [c0] + [ci.reverse() if f else ci for i, f in zip(perm, flips) of the arrangement]
+   --------------------------------------------------------------------------------------------------------- *)
+Definition ec_mrev {P A} (rd : A -> A) (b : bool) (c : ecurve P A) : ecurve P A := if b then ec_rev rd c else c.
+(* [ci.reverse() if f else ci for ci, f in zip(order, flips)] *)
+Definition ec_arrange {P A} (rd : A -> A) (bs : list bool) (cs : list (ecurve P A)) : list (ecurve P A) :=
+  map (fun bc => ec_mrev rd (fst bc) (snd bc)) (combine bs cs).
+(* itertools.permutations of three items, in the order of the code *)
+Definition perms3 {X} (a b c : X) : list (list X) :=
+  [[a; b; c]; [a; c; b]; [b; a; c]; [b; c; a]; [c; a; b]; [c; b; a]].
+(* itertools.product((False, True), repeat=3) *)
+Definition flags3 : list (list bool) :=
+  [[false; false; false]; [false; false; true]; [false; true; false]; [false; true; true];
+   [true; false; false]; [true; false; true]; [true; true; false]; [true; true; true]].
+(* the 48 candidates for mycurves[1:], in the order in which the two nested loops visit them *)
+Definition candidates2 {P A} (rd : A -> A) (c1 c2 c3 : ecurve P A) : list (list (ecurve P A)) :=
+  flat_map (fun p => map (fun f => ec_arrange rd f p) flags3) (perms3 c1 c2 c3).
+
+Section Search2.
+  Context {P A : Type}.
+  Variable close : P -> P -> bool.
+  Variable rd : A -> A.
+
+  (* closes(ends) for the end points of a list of four curves *)
+  Definition closes_list (l : list (ecurve P A)) : bool :=
+    match l with
+    | [a; b; c; d] => closes4 close a b c d
+    | _ => false
+    end.
+
+  Definition loop_order2_gen (curves : list (ecurve P A)) : res (list (ecurve P A)) :=
+    match curves with
+    | [c0; c1; c2; c3] =>
+      if closes4 close c0 c1 c2 c3 then Ok curves
+      else match find (fun t => closes_list (c0 :: t)) (candidates2 rd c1 c2 c3) with
+           | Some t => Ok (c0 :: t)
+           | None => Err RuntimeError
+           end
+    | [_; _] => Err NotSupported
+    | _ => Err ValueError
+    end.
+End Search2.
+
 Section Model.
   Context {F : Type} `{Num F}.
 
@@ -111,4 +166,9 @@ Section Model.
   Definition loop_order {A : Type} (rtol atol : F) (rd : A -> A) (curves : list (ecurve (list F) A))
     : res (list (ecurve (list F) A)) :=
     loop_order_gen (allclose rtol atol) rd curves.
+
+  (* the repaired search *)
+  Definition loop_order2 {A : Type} (rtol atol : F) (rd : A -> A) (curves : list (ecurve (list F) A))
+    : res (list (ecurve (list F) A)) :=
+    loop_order2_gen (allclose rtol atol) rd curves.
 End Model.
